@@ -468,7 +468,13 @@ impl Property for ArithProp {
         let kinds: Vec<&str> = m.cons.iter().map(|p| p.cons.kind()).collect();
         let tag = kinds.join("+");
         if case.regime == 0 {
-            let sols = sem::solutions(m, 1_000_000).expect("harness: enumeration limit");
+            // (up to ten variables with up to five values each: a few cases in a million exceed the limit of
+            // the reference enumeration; they get no verdict)
+            let Some(sols) = sem::solutions(m, 1_000_000) else {
+                out.inconclusive = true;
+                out.classes.push("enumeration_limit".into());
+                return Ok(out);
+            };
             match case.path {
                 0 => {
                     let o = iterate_all(m, &cfg, 10_000);
